@@ -1357,6 +1357,10 @@ var c05MustSinkExceptions = map[string]string{
 }
 
 var c05Controls = []Control{
+	{Name: "testdecl-body-comments-not-queued", Rule: "R05g", WantKey: "command#cmd.Body.Comments", File: "syntax/printer.go",
+		Mutate: ctlReplaceAnywhere("\t\t// Such as the one in \"@test \"x\" { foo; } <<EOF # comment\".\n\t\tp.comments(cmd.Body.Comments...)\n", "")},
+	{Name: "pipeline-lhs-keeps-its-comments", Rule: "R05g", WantKey: "command#cmd.X.Comments", File: "syntax/parser.go",
+		Mutate: ctlReplaceAnywhere("\t\ts.Comments, b.X.Comments = b.X.Comments, nil\n\t\t// in \"! x | y\"", "\t\ts.Comments = append(s.Comments, b.X.Comments...)\n\t\t// in \"! x | y\"")},
 	{Name: "minify-keeps-inline-backquote-comment", Rule: "R05f", WantKey: "cmdSubst#comment text written outside the queue", File: "syntax/printer.go",
 		Mutate: ctlReplaceAnywhere("case cs.Backquotes && len(cs.Stmts) == 0 && !p.minify &&", "case cs.Backquotes && len(cs.Stmts) == 0 &&")},
 	{Name: "empty-list-drops-its-comments", Rule: "R05b", WantKey: "followStmts#returns result 1 of stmtList on every path", File: "syntax/parser.go",
